@@ -10,27 +10,53 @@ set_option linter.unusedSimpArgs false
 namespace KV.Cdp
 open KV
 
-/-- total debt handed to auctions by `AuctionCollateral` -/
-def sumCovered (total debt : Int) : List (Acct × Int) → Int
-  | [] => 0
-  | (_, v) :: rest => debtCovered v total debt + sumCovered total debt rest
+/-- total debt handed to auctions by `AuctionCollateral`, starting with `remaining` debt to distribute -/
+def sumShares (total debt : Int) : Int → List (Acct × Int) → Int
+  | _, [] => 0
+  | remaining, (_, v) :: rest =>
+    cappedShare (debtCovered v total debt) remaining rest.isEmpty +
+      sumShares total debt (remaining - cappedShare (debtCovered v total debt) remaining rest.isEmpty) rest
+
+/-- the shares handed out add up to exactly the debt to distribute (the last deposit takes the remainder) -/
+theorem sumShares_exact (total debt : Int) : ∀ (l : List (Acct × Int)) (remaining : Int), l ≠ [] →
+    sumShares total debt remaining l = remaining := by
+  intro l
+  induction l with
+  | nil => intro _ h; exact absurd rfl h
+  | cons hd tl ih =>
+    obtain ⟨a, v⟩ := hd
+    intro remaining _
+    cases tl with
+    | nil => simp [sumShares, cappedShare]
+    | cons y r =>
+      simp only [sumShares] at ih ⊢
+      rw [ih _ (by simp)]; omega
+
+/-- no share exceeds what is left -/
+theorem cappedShare_le (share remaining : Int) (isLast : Bool) : cappedShare share remaining isLast ≤ remaining := by
+  unfold cappedShare; split <;> omega
+
+theorem cappedShare_nonneg (share remaining : Int) (isLast : Bool) (h1 : 0 ≤ share) (h2 : 0 ≤ remaining) :
+    0 ≤ cappedShare share remaining isLast := by
+  unfold cappedShare; split <;> omega
 
 theorem auctionDeps_spec (cd : Denom) (total debt : Int) (hcd : cd ≠ DEBT) :
-    ∀ (l : List (Acct × Int)) (s s' : St), auctionDeps s cd total debt l = .ok s' →
+    ∀ (l : List (Acct × Int)) (remaining : Int) (s s' : St), auctionDeps s cd total debt remaining l = .ok s' →
       FrameB s s' ∧ s'.supply = s.supply ∧ (∀ d, s'.bal MCDP d = s.bal MCDP d) ∧ debtHeld s' = debtHeld s ∧
-      s'.bal MAUC cd = s.bal MAUC cd + sumDeps l ∧ s'.bal MAUC DEBT = s.bal MAUC DEBT + sumCovered total debt l ∧
+      s'.bal MAUC cd = s.bal MAUC cd + sumDeps l ∧
+      s'.bal MAUC DEBT = s.bal MAUC DEBT + sumShares total debt remaining l ∧
       s'.bal MLIQ cd = s.bal MLIQ cd - sumDeps l ∧
       (∀ a v, (a, v) ∈ l → v ≠ 0) := by
   intro l
   induction l with
   | nil =>
-    intro s s' h
+    intro remaining s s' h
     simp only [auctionDeps] at h; cases h
-    exact ⟨FrameB.refl _, rfl, fun _ => rfl, rfl, by simp [sumDeps], by simp [sumCovered], by simp [sumDeps],
+    exact ⟨FrameB.refl _, rfl, fun _ => rfl, rfl, by simp [sumDeps], by simp [sumShares], by simp [sumDeps],
       fun _ _ hm => by cases hm⟩
   | cons hd tl ih =>
     obtain ⟨a, amt⟩ := hd
-    intro s s' h
+    intro remaining s s' h
     simp only [auctionDeps] at h
     split at h
     · cases h
@@ -47,7 +73,7 @@ theorem auctionDeps_spec (cd : Denom) (total debt : Int) (hcd : cd ≠ DEBT) :
     obtain ⟨F1, hs1⟩ := sendB_frame h1
     obtain ⟨-, hb2, -⟩ := sendB_spec h2
     obtain ⟨F2, hs2⟩ := sendB_frame h2
-    obtain ⟨F, hs, hm, hdh, ha, hdb, hl, hnz⟩ := ih s2 s' h
+    obtain ⟨F, hs, hm, hdh, ha, hdb, hl, hnz⟩ := ih _ s2 s' h
     have hcd' : ¬ (DEBT = cd) := fun e => hcd e.symm
     refine ⟨(F1.trans F2).trans F, by rw [hs, hs2, hs1], ?_, ?_, ?_, ?_, ?_, ?_⟩
     · intro d
@@ -64,7 +90,7 @@ theorem auctionDeps_spec (cd : Denom) (total debt : Int) (hcd : cd ≠ DEBT) :
       simp
       omega
     · rw [hdb, hb2, hb1]
-      simp only [MLIQ, MAUC, hcd', and_false, and_true, ite_false, sumCovered]
+      simp only [MLIQ, MAUC, hcd', and_false, and_true, ite_false, sumShares]
       simp
       omega
     · rw [hl, hb2, hb1]
@@ -96,9 +122,10 @@ structure SeizeSpec (E : Env) (g : Int) (s s' : St) (id : Nat) (c : Cdp) (deps :
   supply : s'.supply = s.supply
   /-- collateral entering auctions = the deposit records handed to the seizure -/
   aucColl : s'.bal MAUC (denomOf E c.ty) = s.bal MAUC (denomOf E c.ty) + sumDeps deps
-  /-- debt entering auctions = Σ per-deposit shares of min(debt, module debt balance) -/
+  /-- debt entering auctions = the capped per-deposit shares of min(debt, module debt balance) -/
   aucDebt : s'.bal MAUC DEBT = s.bal MAUC DEBT +
-    sumCovered (sumDeps deps) (if c.prin + c.fees < s.bal MCDP DEBT then c.prin + c.fees else s.bal MCDP DEBT) deps
+    sumShares (sumDeps deps) (if c.prin + c.fees < s.bal MCDP DEBT then c.prin + c.fees else s.bal MCDP DEBT)
+      (if c.prin + c.fees < s.bal MCDP DEBT then c.prin + c.fees else s.bal MCDP DEBT) deps
 
 theorem seize_spec {E : Env} {g : Int} {s s' : St} {id : Nat} {c : Cdp} {deps : List (Acct × Int)}
     (hW : WF E) (hI : Inv E g s) (ho : s.cdp id = some c)
@@ -127,7 +154,7 @@ theorem seize_spec {E : Env} {g : Int} {s s' : St} {id : Nat} {c : Cdp} {deps : 
     have e' : (1 : Nat) = 0 := e
     exact absurd e' (by decide)
   obtain ⟨e1, e2, e3, e4, e5, e6, e7, e8, e9, e10, e11, e12, e13, e14, e15⟩ := sendDeps_spec id _ _ _ _ _ htgt h2
-  obtain ⟨F3, hs3, hm3, hdh3, ha3, hdb3, hl3, -⟩ := auctionDeps_spec _ _ _ hcd _ _ _ h3
+  obtain ⟨F3, hs3, hm3, hdh3, ha3, hdb3, hl3, -⟩ := auctionDeps_spec _ _ _ hcd _ _ _ _ h3
   have hcdp : s3.cdp = s.cdp := by rw [F3.cdp, e1, F1.cdp]
   have hdebtHeld : debtHeld s3 = debtHeld s := by
     rw [hdh3]; unfold debtHeld
@@ -486,10 +513,11 @@ theorem fetchCdps_spec (s : St) : ∀ (l : List Entry) (cdps : List (Nat × Cdp)
     · cases e'; exact hc
     · exact h2 id c' hm
 
-theorem seizeLoop_inv {E : Env} {g : Int} (hW : WF E) : ∀ (l : List (Nat × Cdp)) (s s' : St), Inv E g s →
+theorem seizeLoop_inv {E : Env} {g : Int} (hW : WF E) (price L : Dec) : ∀ (l : List (Nat × Cdp)) (s s' : St), Inv E g s →
     (∀ id c, (id, c) ∈ l → s.cdp id = some c) → (l.map Prod.fst).Nodup →
-    seizeLoop E s l = .ok s' →
-    Inv E g s' ∧ s'.price = s.price ∧ (∀ id c, (id, c) ∈ l → s'.cdp id = none) ∧
+    seizeLoop E price L s l = .ok s' →
+    Inv E g s' ∧ s'.price = s.price ∧
+      (∀ id c, (id, c) ∈ l → if blockSkips E c price L = true then s'.cdp id = some c else s'.cdp id = none) ∧
       (∀ j, j ∉ l.map Prod.fst → s'.cdp j = s.cdp j) := by
   intro l
   induction l with
@@ -502,31 +530,47 @@ theorem seizeLoop_inv {E : Env} {g : Int} (hW : WF E) : ∀ (l : List (Nat × Cd
     intro s s' hI hst hnd h
     simp only [seizeLoop] at h
     simp only [List.map_cons, List.nodup_cons] at hnd
+    have ho : s.cdp id = some c := hst id c (by simp)
     split at h
-    · rename_i s1 h1
-      have ho : s.cdp id = some c := hst id c (by simp)
-      have hkeys : ∀ a, s.dep id a ≠ 0 → a ∈ (depositsOf E s id).map Prod.fst := by
-        intro a hz
-        exact List.mem_map.2 ⟨(a, s.dep id a), (mem_depositsOf _ _ _ _ _).2 ⟨mem_accts_of_dep hI.coll hz, hz, rfl⟩, rfl⟩
-      have SP := seize_spec hW hI ho (sumDeps_depositsOf E s id) hkeys h1
-      have hst1 : ∀ j cj, (j, cj) ∈ rest → s1.cdp j = some cj := by
-        intro j cj hm
-        have hne : j ≠ id := by
-          intro e; subst e
-          exact hnd.1 (List.mem_map.2 ⟨(j, cj), hm, rfl⟩)
-        rw [SP.other j hne]; exact hst j cj (List.mem_cons_of_mem _ hm)
-      obtain ⟨hI2, p2, g2, o2⟩ := ih s1 s' SP.inv hst1 hnd.2 h
-      refine ⟨hI2, p2.trans SP.price, ?_, ?_⟩
+    · -- re-check: the CDP is at or above the ratio and is left alone
+      rename_i hskip
+      obtain ⟨hI2, p2, g2, o2⟩ := ih s s' hI (fun j cj hm => hst j cj (List.mem_cons_of_mem _ hm)) hnd.2 h
+      refine ⟨hI2, p2, ?_, ?_⟩
       · intro j cj hm
         rcases List.mem_cons.1 hm with e | hm
         · cases e
-          rw [o2 id hnd.1]; exact SP.gone
+          simp only [hskip, ite_true]
+          rw [o2 id hnd.1]; exact ho
         · exact g2 j cj hm
       · intro j hj
         simp only [List.map_cons, List.mem_cons, not_or] at hj
-        rw [o2 j hj.2, SP.other j hj.1]
-    · cases h
-    · cases h
+        exact o2 j hj.2
+    · rename_i hskip
+      split at h
+      · rename_i s1 h1
+        have hkeys : ∀ a, s.dep id a ≠ 0 → a ∈ (depositsOf E s id).map Prod.fst := by
+          intro a hz
+          exact List.mem_map.2 ⟨(a, s.dep id a), (mem_depositsOf _ _ _ _ _).2 ⟨mem_accts_of_dep hI.coll hz, hz, rfl⟩, rfl⟩
+        have SP := seize_spec hW hI ho (sumDeps_depositsOf E s id) hkeys h1
+        have hst1 : ∀ j cj, (j, cj) ∈ rest → s1.cdp j = some cj := by
+          intro j cj hm
+          have hne : j ≠ id := by
+            intro e; subst e
+            exact hnd.1 (List.mem_map.2 ⟨(j, cj), hm, rfl⟩)
+          rw [SP.other j hne]; exact hst j cj (List.mem_cons_of_mem _ hm)
+        obtain ⟨hI2, p2, g2, o2⟩ := ih s1 s' SP.inv hst1 hnd.2 h
+        refine ⟨hI2, p2.trans SP.price, ?_, ?_⟩
+        · intro j cj hm
+          rcases List.mem_cons.1 hm with e | hm
+          · cases e
+            simp only [hskip, ite_false]
+            rw [o2 id hnd.1]; exact SP.gone
+          · exact g2 j cj hm
+        · intro j hj
+          simp only [List.map_cons, List.mem_cons, not_or] at hj
+          rw [o2 j hj.2, SP.other j hj.1]
+      · cases h
+      · cases h
 
 theorem below_sublist (idx : List Entry) (ty : Nat) (K : Int) : (below idx ty K).Sublist idx :=
   List.filter_sublist
@@ -545,7 +589,7 @@ theorem liquidateBlock_inv {E : Env} {g : Int} {s s' : St} {ty : Nat} {cp : Coll
   have hnd : (cdps.map Prod.fst).Nodup := by
     rw [hmap]
     exact idx_ids_nodup hI.idx ((takeCount_sublist _ _).trans (below_sublist _ _ _))
-  obtain ⟨h1, h2, -, -⟩ := seizeLoop_inv hW cdps s s' hI hst hnd h
+  obtain ⟨h1, h2, -, -⟩ := seizeLoop_inv hW _ _ cdps s s' hI hst hnd h
   exact ⟨h1, h2⟩
 
 theorem bbType_inv {E : Env} {g : Int} {now : Int} {skip : Bool} {s s' : St} {ty : Nat} {cp : CollParam} {f : Dec}
